@@ -242,9 +242,36 @@ type vfSockCase struct {
 	// OutName: name of the output directory below the scratch directory ("" = "out"); may contain the
 	// extensions the recorder uses for its own files
 	OutName string `json:"out_name,omitempty"`
+	// OutLink: 1 = the output directory is a symbolic link to the real directory; 2 = its constant-recordings
+	// sub-directory is one
+	OutLink int `json:"out_link,omitempty"`
 }
 
-var vfOutNames = []string{"", "", "", "rec.temp", "a.cptv.temp.d", "spool.temp/recordings", "x y", "cptv", "constant-recordings"}
+// makeOut creates the output directory of the case below dir and returns its path (as written to config.toml).
+func (c vfSockCase) makeOut(dir string) string {
+	out := c.outDir(dir)
+	switch c.OutLink {
+	case 1:
+		real := filepath.Join(dir, "real-out")
+		os.MkdirAll(real, 0755)
+		os.MkdirAll(filepath.Dir(out), 0755)
+		if err := os.Symlink(real, out); err != nil {
+			panic(err)
+		}
+	case 2:
+		os.MkdirAll(out, 0755)
+		real := filepath.Join(dir, "real-constant")
+		os.MkdirAll(real, 0755)
+		if err := os.Symlink(real, filepath.Join(out, "constant-recordings")); err != nil {
+			panic(err)
+		}
+	default:
+		os.MkdirAll(out, 0755)
+	}
+	return out
+}
+
+var vfOutNames = []string{"", "", "", "rec.temp", "a.cptv.temp.d", "spool.temp/recordings", "x y", "cptv", "constant-recordings", "usb[1]/cptv", "a*b?c", "back\\slash"}
 
 func (c vfSockCase) outDir(dir string) string {
 	n := c.OutName
@@ -340,7 +367,7 @@ func vfSockValid(c vfSockCase) string {
 	for _, n := range vfOutNames {
 		okName = okName || n == c.OutName
 	}
-	if !okName {
+	if !okName || c.OutLink < 0 || c.OutLink > 2 {
 		return "output directory name outside the list"
 	}
 	if cam.Brand != "flir" || (cam.Model != "lepton3" && cam.Model != "lepton3.5" && cam.Model != "boson") {
@@ -357,8 +384,7 @@ func vfRunSock(c vfSockCase) *vfSockOut {
 		panic(err)
 	}
 	defer os.RemoveAll(dir)
-	out := c.outDir(dir)
-	os.MkdirAll(out, 0755)
+	out := c.makeOut(dir)
 	conf := vfConf{DeviceName: "sock", Min: c.Min, Max: c.Max, Prev: c.Prev, Cont: c.Cont, MinDiskMB: 1, BucketS: 600, RefillS: 600,
 		WinStart: "12:00", WinEnd: "12:00", Motion: vfSimpleMotion(c.Trigger, c.Edge)}
 	if err := vfWriteConfig(dir, out, conf); err != nil {
@@ -558,6 +584,7 @@ func vfGenSockBase(t *rapid.T, bad, clear bool) vfSockCase {
 	c.Trigger = rapid.IntRange(1, 2).Draw(t, "trigger")
 	c.Fast = rapid.IntRange(0, 2).Draw(t, "fast") == 0
 	c.OutName = rapid.SampledFrom(vfOutNames).Draw(t, "outname")
+	c.OutLink = rapid.SampledFrom([]int{0, 0, 0, 0, 1, 2}).Draw(t, "outlink")
 	nseg := rapid.IntRange(2, 8).Draw(t, "nseg")
 	for s := 0; s < nseg; s++ {
 		switch rapid.IntRange(0, 6).Draw(t, "seg") {
